@@ -194,6 +194,21 @@ func (r *Rec) Inconclusive(why string, desc interface{}) {
 	r.line(map[string]interface{}{"t": "inconclusive", "why": why, "case": desc})
 }
 
+// InconclusiveCount is the number of inconclusive cases so far in this child: harnesses stop a work
+// group early when watchdogs keep firing (every one costs its full window).
+func (r *Rec) InconclusiveCount() int64 {
+	r.mu.Lock()
+	defer r.mu.Unlock()
+	return r.stats["inconclusive"]
+}
+
+// ViolationCount is the number of violations recorded so far in this child.
+func (r *Rec) ViolationCount() int {
+	r.mu.Lock()
+	defer r.mu.Unlock()
+	return r.viol
+}
+
 // Note writes a free-form diagnostic line.
 func (r *Rec) Note(msg string, kv interface{}) {
 	r.mu.Lock()
